@@ -422,13 +422,17 @@ def r3_grid(ctx):
     p_missing, p_transpose = (pa[1], pa[2]) if len(pa) >= 3 else ("missing", "transpose")
     ex = explore(fn)
     n = 0
-    for missing in (True, False):
+    for missing in (True, False, None):
         for transpose in (True, False):
             for kind in (("any",) if missing else ("list", "dict")):
                 cell = f"grid cell missing={missing} transpose={transpose} data={kind}"
 
                 def atom(e, _m=missing, _t=transpose, _k=kind):
-                    return {p_missing: _m, p_transpose: _t, "isinstance(self.data, list)": _k == "list", "isinstance(self.data, dict)": _k == "dict"}.get(norm(e))
+                    got = {p_missing: bool(_m), p_transpose: _t, "isinstance(self.data, list)": _k == "list", "isinstance(self.data, dict)": _k == "dict"}.get(norm(e), K.Undecided)
+                    if got is K.Undecided:
+                        # a test written over the flags (`missing is not None`, `missing == True`) is folded for the cell's constants
+                        return K.concrete_truth(e, {p_missing: _m, p_transpose: _t})
+                    return got
                 found, unk = [], []
                 for lp, start, its in ex.iterations.values():
                     if not isinstance(lp, ast.For):
@@ -451,6 +455,11 @@ def r3_grid(ctx):
                 if len(elts) < 3:
                     ctx.unrecognised(PG, "DataPlotGrid.items", cell, "yield has no (row, col)")
                     continue
+                # empty cells carry (index, row, col); data cells additionally the element (list) or key and value (dict)
+                want_len = 3 if missing else (4 if kind == "list" else 5)
+                if not any(isinstance(e, ast.Starred) for e in elts):  # an unpacked tail has no length the table could read
+                    ctx.check(len(elts) == want_len, PG, "DataPlotGrid.items", f"{cell}: the yielded tuple has the documented fields", detail=[norm(e)[:40] for e in elts],
+                              expected="(i, row, col)" if missing else ("(i, row, col, item)" if kind == "list" else "(i, row, col, key, value)"))
                 ivar = norm(elts[0])
                 a, b = _idx_form_v(elts[1], ivar), _idx_form_v(elts[2], ivar)
                 if a is None or b is None:
@@ -465,7 +474,7 @@ def r3_grid(ctx):
                     ctx.check(rng == ["range(self.ndata, self.ncols * self.nrows)"], PG, "DataPlotGrid.items", f"{cell}: empty cells are the indices after the data up to ncols*nrows",
                               detail=rng)
                 ctx.check(isinstance(tgt, ast.Name) and ivar.startswith(tgt.id + "@loop"), PG, "DataPlotGrid.items", f"{cell}: the running index is reported first", detail=ivar.split("@")[0])
-    ctx.floor("grid cells", n, 6)
+    ctx.floor("grid cells", n, 10)
     ini = ctx.fn(PG, "DataPlotGrid.__init__")
     s = [norm(x) for x in K.body_nodoc(ini)]
     ctx.check("self.nrows = int(np.ceil(self.ndata / self.ncols))" in s and "self.ndata = len(data)" in s, PG, "DataPlotGrid.__init__", "nrows = ceil(ndata/ncols)", detail=[x for x in s if "nrows" in x])
